@@ -24,7 +24,7 @@ func scenario(t *testing.T, idx int64, r *rand.Rand) {
 	yields := []int{0, 50, 2000}[r.IntN(3)]
 	var trace []string
 	var ops []string
-	checks, fullRefusals, bursts := 0, 0, 0
+	checks, fullRefusals, bursts, overlaps := 0, 0, 0, 0
 	bad := false
 	bubble(t, func(t *testing.T) {
 		w := blk.NewWorld(k, capacity)
@@ -74,7 +74,7 @@ func scenario(t *testing.T, idx int64, r *rand.Rand) {
 		check("start")
 		nops := 8 + r.IntN(25)
 		for i := 0; i < nops && !bad; i++ {
-			switch x := r.IntN(12); {
+			switch x := r.IntN(13); {
 			case x < 4: // single arrival
 				time.Sleep(time.Duration(1+r.IntN(3)) * time.Millisecond)
 				w.Quiesce()
@@ -119,6 +119,47 @@ func scenario(t *testing.T, idx int64, r *rand.Rand) {
 				w.Release(l, []string{"success", "ignore", "dropped"}[r.IntN(3)])
 				ops = append(ops, "release")
 				check("after-release")
+			case x == 11 && T < time.Hour: // release at the very instant the oldest blocked caller times out (give-up overlapping a hand-off)
+				var first *blk.Waiter
+				for _, wt := range w.Waiters {
+					if !wt.Done() {
+						first = wt
+						break
+					}
+				}
+				if first == nil || len(held) == 0 {
+					continue
+				}
+				if at := first.Arrived + T; at > w.Now() {
+					time.Sleep(at - w.Now())
+				}
+				var l core.Listener
+				l, held = held[0], held[1:]
+				w.Release(l, "success")
+				ops = append(ops, fmt.Sprintf("release-at-timeout-of(%d)", first.ID))
+				overlaps++
+				check("after-release-at-timeout-instant")
+			case x == 10 && k.Evict: // cancel the next-in-line and release at once (no quiescence in between)
+				var cand []*blk.Waiter
+				for _, wt := range w.Waiters {
+					if !wt.Done() && !wt.Cancelled.Load() {
+						cand = append(cand, wt)
+					}
+				}
+				if len(cand) == 0 || len(held) == 0 {
+					continue
+				}
+				wt := cand[0]
+				if k.Ordering != "fifo" {
+					wt = cand[len(cand)-1]
+				}
+				w.CancelWaiter(wt)
+				var l core.Listener
+				l, held = held[0], held[1:]
+				w.Release(l, "ignore")
+				ops = append(ops, fmt.Sprintf("cancel(%d)+release", wt.ID))
+				overlaps++
+				check("after-cancel-and-release")
 			case x < 10: // cancel a blocked caller
 				var cand []*blk.Waiter
 				for _, wt := range w.Waiters {
@@ -156,6 +197,7 @@ func scenario(t *testing.T, idx int64, r *rand.Rand) {
 	rt.Count("quiescent_checks", int64(checks))
 	rt.Count("arrivals_at_full_backlog", int64(fullRefusals))
 	rt.Count("simultaneous_bursts", int64(bursts))
+	rt.Count("give_ups_overlapping_a_release", int64(overlaps))
 	if !bad && checks > 5 {
 		rt.Distinct(fmt.Sprintf("%v|%d|%v", k, capacity, ops))
 	}
@@ -164,10 +206,46 @@ func scenario(t *testing.T, idx int64, r *rand.Rand) {
 	}
 }
 
+// defaultBound: a backlog size <= 0 means "use the default" (100).  100 + k simultaneous callers at an exhausted limiter:
+// exactly 100 wait, the rest are refused on the spot, the queue_limit gauge says 100.
+func defaultBound(t *testing.T, idx int64, r *rand.Rand) {
+	size := []int{0, -1, -7}[r.IntN(3)]
+	extra := 1 + r.IntN(6)
+	k := blk.Kind{Family: "queue", Ordering: []string{"fifo", "lifo", ""}[r.IntN(3)], Evict: r.IntN(2) == 0, Backlog: size, Timeout: time.Hour}
+	bubble(t, func(t *testing.T) {
+		w := blk.NewWorld(k, 1)
+		held := w.Hold(1)
+		for i := 0; i < 100+extra; i++ {
+			w.Spawn()
+		}
+		w.Quiesce()
+		s := w.Snap("after-burst-of-100-plus")
+		ql, _ := w.Reg.GaugeByPrefix(core.MetricQueueLimit)
+		inside := len(s.Blocked) + len(s.GivingUp)
+		rt.Count("default_bound_cases", 1)
+		if inside != 100 || len(s.Refused) != extra || s.QueueGauge != 100 || int(ql) != 100 {
+			rt.Violation(fmt.Sprintf("C12/%s/default-backlog-bound-not-applied", k), idx, rt.J{"configured_size": size, "callers": 100 + extra,
+				"blocked": inside, "refused": len(s.Refused), "queue_size_gauge": s.QueueGauge, "queue_limit_gauge": ql})
+		}
+		for _, wt := range w.Waiters {
+			if wt.Done() && !wt.OK && wt.Returned != wt.Arrived {
+				rt.Violation(fmt.Sprintf("C12/%s/refusal-at-full-backlog-not-immediate", k), idx, rt.J{"waiter": wt.ID})
+				break
+			}
+		}
+		w.Teardown(held)
+	})
+	rt.Distinct(fmt.Sprintf("defaultbound|%v|%d|%d", k, size, extra))
+}
+
 func TestCheck(t *testing.T) {
 	rt.Cases(2000, 400000, func(idx int64) {
 		r := rt.CaseRand(12, idx)
 		rt.Case()
+		if idx%25 == 24 {
+			defaultBound(t, idx, r)
+			return
+		}
 		scenario(t, idx, r)
 	})
 }
